@@ -42,6 +42,14 @@ impl Vm {
                         self.ip,
                         self.acc.clone(),
                     ));
+                    // A failed evaluation abandons its frames: reset the registers and wipe
+                    // the stack so the next evaluation starts from the same state as in a
+                    // fresh VM and dead frames are neither roots nor part of later traces.
+                    self.stack.clear();
+                    *self.stack.get_sp_mut() = 0;
+                    self.bp = 0;
+                    self.ep = usize::MAX;
+                    self.acc = VCell::undefined();
                     return Err(e);
                 }
             }
